@@ -250,3 +250,27 @@ Proof.
   - now rewrite Hn.
   - rewrite (IH Hin Hn). destruct (subst_ttok ms x); reflexivity.
 Qed.
+
+(* ------------------------------------------------------------------------------------------ *)
+(* C18: letter case of mnemonics and register names carries no meaning                          *)
+
+Theorem mnemonic_case_irrelevant fuel regs i mn mn' ops :
+  map lower mn = map lower mn' -> assemble_stmt fuel regs i mn ops = assemble_stmt fuel regs i mn' ops.
+Proof. intros H. destruct fuel as [|f]; cbn [assemble_stmt]; [reflexivity|]. now rewrite H. Qed.
+
+Lemma str_eqb_ci_case x x' r : map lower x = map lower x' -> str_eqb_ci x r = str_eqb_ci x' r.
+Proof. intros H. unfold str_eqb_ci. now rewrite H. Qed.
+
+(* a plain (or decorated) register operand matches iff the name written equals the register up to letter case *)
+Theorem register_operand_accepts_iff regs o r d txt x :
+  op_kind o = KRegister r d -> undecorate d txt = Some [OT (TLabel x)] ->
+  ((exists m, try_operand regs o txt = PMatch m) <-> str_eqb_ci x r = true).
+Proof.
+  intros Hk Hu. unfold try_operand. rewrite Hk, Hu.
+  destruct (str_eqb_ci x r); split; intros H; try reflexivity; try discriminate.
+  - eexists. reflexivity.
+  - destruct H as [m Hm]. discriminate.
+Qed.
+
+Theorem register_case_irrelevant x x' r : map lower x = map lower x' -> str_eqb_ci x r = str_eqb_ci x' r.
+Proof. exact (str_eqb_ci_case x x' r). Qed.
